@@ -169,46 +169,12 @@ pub fn build(raw: &Raw, _tier: Tier, sched: bool) -> Scenario {
             b.s.threads[th].push(Op::Stop { store: s, via_trait: false });
         }
     }
-    if !sched || knob(raw, 12) % 2 == 0 {
-        // (also applied to half of the schedule-controlled cases, so that their schedules are not
-        // spent on rediscovering the known finding)
-        // Real threads cannot recover from a hung OS thread, so the one shape known to hang
-        // (finding `iterator-created-after-shutdown`: next() of an iterator created after the store
-        // was shut down blocks forever) is excluded by construction here and left to the
-        // schedule-controlled driver: at most one iterator per thread, no shutdown call other than
-        // the final stop, which waits until every iterator exists.
-        let has_iter = b.s.threads.iter().flatten().any(|o| matches!(o, Op::Iter { .. } | Op::IterOpen { .. }));
-        if has_iter {
-            let ready = b.gate();
-            let mut iters = 0;
-            let n = b.s.threads.len();
-            for (t, ops) in b.s.threads.iter_mut().enumerate() {
-                let mut seen = false;
-                let len = ops.len();
-                for (i, o) in ops.iter_mut().enumerate() {
-                    let final_stop = t + 1 == n && i + 1 == len;
-                    match o {
-                        Op::Iter { ready: r, .. } | Op::IterOpen { ready: r, .. } if !seen => {
-                            seen = true;
-                            iters += 1;
-                            *r = Some(ready);
-                        }
-                        Op::Iter { .. } | Op::IterOpen { .. } => *o = Op::GetState { store: s },
-                        Op::Close { .. } | Op::Stop { .. } | Op::DropDroppable { .. } if !final_stop => *o = Op::GetMetrics { store: s },
-                        _ => {}
-                    }
-                }
-            }
-            let last = b.s.threads.last_mut().unwrap();
-            let at = last.len() - 1;
-            last.insert(at, Op::GateAwait { gate: ready, entered: iters });
-        }
-    }
     b.finish()
 }
 
-/// Finding F6 candidate signature: a consumer is blocked in `next()` of an iterator that was
-/// created after a shutdown of the store had been invoked.
+/// Signature of the repaired defect F6 (kept so that its return is recognised and reported): a
+/// consumer is blocked in `next()` of an iterator that was created after a shutdown of the store
+/// had been invoked. It is no longer listed in known-findings.txt, so it counts as a violation.
 fn iterator_created_after_shutdown(scn: &Scenario, h: &History) -> bool {
     let pend = pending_ops(scn, h);
     let shutdown = h.recs.iter().position(|r| match &r.ev {
@@ -341,9 +307,7 @@ pub fn check(scn: &Scenario, h: &History) -> Outcome {
     for k in &kinds {
         out.class(k);
     }
-    if scn.threads.last().map(|t| t.iter().any(|o| matches!(o, Op::GateAwait { .. }))).unwrap_or(false) {
-        out.class("R-excluded-shape-iterator-after-shutdown");
-    }
+
     if client_threads >= 3 && kinds.len() >= 3 {
         out.nontrivial = true;
     }
@@ -363,6 +327,7 @@ pub static PROFILE: Profile = Profile {
     assumptions: &[
         "callbacks never call back into the store except get_state (the property excludes it)",
         "the last client thread always ends with stop() and consumes no iterator, so a consumer running to None is released by a stop that does not depend on it",
+        "real threads: while a thread holds an open iterator it makes no subscriber-list call (known finding shutdown-sweep-blocked-on-unread-iterator would hang an OS thread); the schedule-controlled drivers do generate that shape",
         "step bound 200000 per execution: reaching it is inconclusive, never a violation (the code has no spin loops)",
     ],
 };
